@@ -27,6 +27,13 @@
     login of that subject at that provider;
   * `status`: an IdP-initiated request is answered `Success` only if it named the current subject and
     that subject's session is gone.
+  * `afterSoap f`: clause `f` was violated while processing a logout operation in which an answer
+    received over SOAP had been counted (used only to classify the known finding).
+
+  Left open on purpose (the text is silent): what a pending request's answer does when it comes from
+  a provider the operation is not (or no longer) waiting for — duplicates of a re-issued request,
+  foreign issuers —; the session may end then, it may not appear.  A logout of a subject whose cache
+  entry lists no issuer at all is likewise unconstrained.
 
   `countSoap = true` is the property as stated (an identity provider that answered over SOAP has
   answered); `countSoap = false` describes the code as it is (SOAP answers are not counted: finding
